@@ -952,15 +952,19 @@ func (fc *funcContext) makeReceiver(e *ast.SelectorExpr) *expression {
 	x := e.X
 	recvType := sel.Recv()
 	if len(sel.Index()) > 1 {
+		fieldName := ""
 		for _, index := range sel.Index()[:len(sel.Index())-1] {
 			if ptr, isPtr := recvType.(*types.Pointer); isPtr {
 				recvType = ptr.Elem()
 			}
 			s := recvType.Underlying().(*types.Struct)
 			recvType = fc.fieldType(s, index)
+			fieldName = s.Field(index).Name()
 		}
 
-		fakeSel := &ast.SelectorExpr{X: x, Sel: ast.NewIdent("o")}
+		// The selector is named after the embedded field it ends in: the name keys the cache of the field's address
+		// ($ptr_<name>), which must be the one `&x.<name>` uses and must differ between different embedded fields.
+		fakeSel := &ast.SelectorExpr{X: x, Sel: ast.NewIdent(fieldName)}
 		fc.pkgCtx.additionalSelections[fakeSel] = typesutil.NewSelection(types.FieldVal, sel.Recv(), sel.Index()[:len(sel.Index())-1], nil, recvType)
 		x = fc.setType(fakeSel, recvType)
 	}
